@@ -340,6 +340,77 @@ def job_quadrature(seq):
     return recs
 
 
+OBS_DT = 1.4316557653333333
+SMALL_TABLE = np.array([[1.0, 0.1, 0.5], [2.0, 0.2, 0.6], [3.5, 0.3, 0.7]])
+
+
+def job_default_tables(ntype, dts):
+    """add_noise_from_obs() without tables: the packaged observation tables (here a 3-row stand-in returned by np.load),
+    scaled to EACH frame's own time resolution; frames of different dt in one session"""
+    recs = []
+    tag = f"C11:default-tables:{(ntype, tuple(dts))}"
+
+    class PX(npx.NPProxy):
+        def load(self, *a, **k):
+            return SMALL_TABLE.copy()
+    px = PX(rng_factory=factory)
+
+    def run():
+        out = []
+        for dt_ in dts:
+            fr = FR.Frame(fchans=2, tchans=1, df=2.0, dt=dt_, fch1=4096.0, seed=17)
+            fr.add_noise_from_obs(noise_type=ntype)
+            out.append((fr.noise_mean, fr.noise_std))
+        return out
+    with patches(px, ClipSpy()):
+        leaves = core.explore(run, [], cap=200)
+    conds = []
+    for li, leaf in enumerate(leaves):
+        conds.append(leaf.cond())
+        name = f"{tag}:leaf{li}"
+        base = leaf.pc + leaf.side
+        if leaf.kind == 'exc':
+            r, m = core.check(base)
+            recs.append(q(name, r, detail=repr(leaf.value)))
+            if r == 'sat':
+                recs.append(cex('C11:default-tables:raise', f'add_noise_from_obs() raised {leaf.value!r}', dict(fn='default_tables', ntype=ntype, dts=list(dts)), name=name))
+            continue
+        dis = []
+        for dt_, (nm, ns) in zip(dts, leaf.value):
+            sc = RV(dt_) / RV(OBS_DT)
+            means = [RV(v) * sc for v in SMALL_TABLE[:, 0]]
+            stds = [RV(v) * sc for v in SMALL_TABLE[:, 1]]
+            far = lambda a, b: z3.Or(a - b > RV(1e-12) * b, b - a > RV(1e-12) * b)        # the scaling is one binary64 product
+            if ntype == 'chi2':
+                dis.append(z3.And(*[far(lift(nm), mv) for mv in means]))
+            else:
+                dis.append(z3.And(*[far(lift(nm), mv) for mv in means + stds]))
+                dis.append(z3.And(*[far(lift(ns), sv) for sv in stds]))
+        r, m = core.check(base + [z3.Or(*dis)], timeout_ms=60000)
+        recs.append(q(name, r))
+        if r == 'sat':
+            recs.append(cex('C11:default-tables', f'with the packaged tables, a frame (dt in {dts}) records noise parameters that are not table entries scaled to its own dt', dict(fn='default_tables', ntype=ntype, dts=list(dts)), name=name))
+    sides = [c for leaf in leaves for c in leaf.side]
+    r, _ = core.check(sides + [z3.Not(z3.Or(*conds))] if conds else [])
+    recs.append(q(f"{tag}:split-complete", r, leaves=len(leaves)))
+    return recs
+
+
+def replay_default_tables(p):
+    import pathlib
+    import setigen as stg
+    tab = np.load(pathlib.Path(stg.__file__).parent / 'assets' / 'sample_noise_params.npy')
+    msgs = []
+    for k, dt_ in enumerate(list(p['dts']) + [1.4316557653333333, 36.5]):
+        fr = stg.Frame(fchans=8, tchans=4, df=2.0, dt=dt_, fch1=4096.0, seed=k)
+        fr.add_noise_from_obs(noise_type=p['ntype'])
+        sc = dt_ / 1.4316557653333333
+        cols = [tab[:, 0] * sc] if p['ntype'] == 'chi2' else [tab[:, 0] * sc, tab[:, 1] * sc]
+        if not any(np.any(np.isclose(c, fr.noise_mean, rtol=1e-12, atol=0)) for c in cols):
+            msgs.append(f"frame {k} (dt={dt_}): recorded mean {fr.noise_mean!r} is not an entry of the packaged table scaled by dt/obs_dt = {sc!r}")
+    return bool(msgs), '; '.join(msgs[:2]) or 'packaged tables are scaled to each frame'
+
+
 def job_quadrature_pols(order):
     """two polarisations, two antennas: noise added to one polarisation's background (and to single streams) reaches
     exactly the streams of that polarisation; order = sequence over 'X','Y' (background x / y) and 'a','b' (own streams)"""
@@ -537,7 +608,7 @@ def replay_quadrature(p):
     return bad, f"sequence {p['seq']}: total {st.get_total_noise_std()} (expected {want}), other antenna {other.get_total_noise_std()} (expected {want_o})"
 
 
-REPLAYS = {'add_noise': replay_add_noise, 'from_obs': replay_from_obs, 'errors': replay_errors, 'snr': replay_snr, 'quadrature': replay_quadrature, 'quadrature_pols': replay_quadrature_pols}
+REPLAYS = {'add_noise': replay_add_noise, 'from_obs': replay_from_obs, 'errors': replay_errors, 'snr': replay_snr, 'quadrature': replay_quadrature, 'quadrature_pols': replay_quadrature_pols, 'default_tables': replay_default_tables}
 
 
 def main():
@@ -560,6 +631,8 @@ def main():
                     jobs.append(('job_from_obs', (ntype, share, with_min, nlen)))
     for T in (1, 4, 16):
         jobs.append(('job_snr', (T,)))
+    for ntype in ('chi2', 'gaussian'):
+        jobs.append(('job_default_tables', (ntype, (4.0, 8.0))))
     for order in ('X', 'Y', 'XY', 'YX', 'XaY', 'bYX', 'XYab'):
         jobs.append(('job_quadrature_pols', (order,)))
     for seq in ('s', 'b', 'ss', 'sb', 'bs', 'bb', 'ssb', 'sbs', 'bbs', 'sss'):
